@@ -11,6 +11,7 @@ import (
 	"path/filepath"
 	"regexp"
 	"sort"
+	"strconv"
 	"strings"
 
 	"golang.org/x/tools/go/packages"
@@ -221,6 +222,18 @@ func LoadProgram(rootDirs []string, harnessFilter func(file string) bool) (*Prog
 // package paths may be given relative to the repo module.
 func (P *Program) findFunc(q string, cur *ssa.Package) (*ssa.Function, error) {
 	q = strings.TrimSpace(q)
+	// anonymous functions: "Func$1", "(*T).M$2$1" (go/ssa numbering, 1-based)
+	if i := strings.LastIndex(q, "$"); i > 0 {
+		parent, err := P.findFunc(q[:i], cur)
+		if err != nil {
+			return nil, err
+		}
+		k, err := strconv.Atoi(q[i+1:])
+		if err != nil || k < 1 || k > len(parent.AnonFuncs) {
+			return nil, fmt.Errorf("anonymous function %q not found", q)
+		}
+		return parent.AnonFuncs[k-1], nil
+	}
 	recvPtr := false
 	var pkgPath, typ, name string
 	if strings.HasPrefix(q, "(") {
